@@ -120,7 +120,7 @@ type c18Argv struct {
 func (c *c18Argv) Key() string { return fmt.Sprintf("%q", c.Prefix) }
 
 var c18Alphabet = []string{"-d", "-t", "-r", "-s", "--disasm", "--trace", "--result", "--stats", "-dt", "-ts", "-dts", "-rs",
-	"--bdump", "--bdump=o.bcb", "--bload", "--bload=o.bcb", "--", "-", "f.bcl", "g.txt", "-x", "--foo", "-h", "-d1", "--bdumpx"}
+	"--bdump", "--bdump=o.bcb", "--bload", "--bload=o.bcb", "--", "-", "f.bcl", "g.txt", "-x", "--foo", "-h", "-d1", "--bdumpx", "calc.bcl"}
 
 var argvServer struct {
 	cmd *exec.Cmd
@@ -470,6 +470,30 @@ var subC18Misc = &fw.Sub{Name: "c18.misc", New: func() fw.Case { return &c18Misc
 				fw.Tally("process_runs", 2)
 			}
 		}
+		// file names whose stem ends in a letter of ".bcl", and a BFILE that already holds a longer dump
+		if prog == "ok" {
+			for _, stem := range []string{"calc", "lib", "abc", "x.l", "b"} {
+				os.WriteFile(filepath.Join(dir, stem+".bcl"), []byte(c18Progs["ok"]), 0o644)
+				d := runCLI(dir, "", "--bdump", stem+".bcl")
+				if _, err := os.Stat(filepath.Join(dir, stem+".bcb")); err != nil {
+					return fw.Failf("bcl --bdump "+stem+".bcl writes "+stem+".bcb", "%v (status %d)", err, d.code)
+				}
+				l := runCLI(dir, "", "--bload", stem+".bcb")
+				if l.stdout != d.stdout || l.code != d.code {
+					return fw.Failf("--bload "+stem+".bcb reproduces "+fw.Trunc(d.stdout, 200), "status %d %q %q", l.code, fw.Trunc(l.stdout, 200), fw.Trunc(l.stderr, 200))
+				}
+				fw.Tally("process_runs", 2)
+			}
+			long := strings.Repeat("print \"a long program\"\n", 30)
+			os.WriteFile(filepath.Join(dir, "long.bcl"), []byte(long), 0o644)
+			runCLI(dir, "", "--bdump=o.bcb", "long.bcl")
+			d := runCLI(dir, "", "--bdump=o.bcb", "ok.bcl")
+			l := runCLI(dir, "", "--bload=o.bcb")
+			if l.stdout != d.stdout || l.code != d.code {
+				return fw.Failf("a BFILE that held a longer dump before is replaced: "+fw.Trunc(d.stdout, 200), "status %d %q %q", l.code, fw.Trunc(l.stdout, 200), fw.Trunc(l.stderr, 200))
+			}
+			fw.Tally("process_runs", 3)
+		}
 		fw.TallyOutcome("bdump-bload-roundtrip")
 	}
 	fw.TallyNontrivial()
@@ -480,7 +504,7 @@ func init() {
 	fw.Register(&fw.Check{
 		ID:    "C18",
 		Level: "model_checking",
-		Rule: "(1) every argument vector of length <=L (quick 3, thorough 4) over a 25-symbol alphabet (short, long and clustered flags, --bdump/--bload with and without =BFILE, --, -, file names, unknown and malformed flags, -h) is fed to the real parseArgs (compiled from the working tree with a stdin/stdout server added by build overlay) and compared with a reference argument parser written from the usage text; " +
+		Rule: "(1) every argument vector of length <=L (quick 3, thorough 4) over a 26-symbol alphabet (short, long and clustered flags, --bdump/--bload with and without =BFILE, --, -, file names, unknown and malformed flags, -h) is fed to the real parseArgs (compiled from the working tree with a stdin/stdout server added by build overlay) and compared with a reference argument parser written from the usage text; " +
 			"(2) the real binary is executed for every subset of {d,t,r,s} x every permutation of the flags around the file argument, every clustering, the long spellings and `--`, x program classes {succeeds, parse error, runtime error, empty} x file given by name / as '-' / omitted: stdout must equal what the library prints with the same options, exit status 0/1/2, diagnostics on stderr; usage errors, missing file, directory, and --bdump followed by --bload (3 spellings x 5 flag sets).",
 		Subs:           []*fw.Sub{subC18Argv, subC18Run, subC18Misc},
 		BudgetQuick:    100,
